@@ -35,6 +35,11 @@ func findSyntax(pkgs []*packages.Package, absPath string) (*packages.Package, *a
 
 // visibleKind classifies a call: "" (not visible), "point" (atomic op etc.),
 // "lock", "rlock".
+// instrumentFS: calls through the vfs.FS / vfs.File interfaces (except Read/Write,
+// which also happen inside std-lib helpers that cannot be instrumented) and
+// syscall.Flock are scheduling points too (spec.json "instrument_fs").
+var instrumentFS bool
+
 func visibleKind(info *types.Info, call *ast.CallExpr) string {
 	sel, ok := call.Fun.(*ast.SelectorExpr)
 	if !ok {
@@ -45,6 +50,18 @@ func visibleKind(info *types.Info, call *ast.CallExpr) string {
 		return ""
 	}
 	full := fn.FullName()
+	if instrumentFS {
+		if full == "syscall.Flock" {
+			return "point"
+		}
+		if strings.HasPrefix(full, "("+nokv+"/vfs.FS).") || strings.HasPrefix(full, "("+nokv+"/vfs.File).") {
+			switch fn.Name() {
+			case "Read", "Write", "ReadAt", "WriteAt", "Name", "Seek":
+				return ""
+			}
+			return "point"
+		}
+	}
 	switch fn.Pkg().Path() {
 	case "sync/atomic":
 		return "point"
@@ -81,16 +98,44 @@ func instrumentFile(pkgs []*packages.Package, rel string) ([]byte, error) {
 		return &ast.CallExpr{Fun: &ast.SelectorExpr{X: ast.NewIdent("verifsym"), Sel: ast.NewIdent(name)}, Args: args}
 	}
 	n := 0
-	out := astutil.Apply(file, nil, func(c *astutil.Cursor) bool {
-		// statement-level calls without a single result: Point() statement in front
-		if es, ok := c.Node().(*ast.ExprStmt); ok {
-			if call, ok := es.X.(*ast.CallExpr); ok && visibleKind(info, call) == "point" {
-				if sig, _ := info.TypeOf(call.Fun).(*types.Signature); sig != nil && sig.Results().Len() != 1 && c.Index() >= 0 {
-					n++
-					c.InsertBefore(&ast.ExprStmt{X: symCall("Point")})
-				}
-			}
+	// visible calls without exactly one result cannot be wrapped in an expression:
+	// a Point() statement goes in front of the nearest enclosing statement that
+	// sits in a statement list
+	needPoint := map[ast.Stmt]int{}
+	var stack []ast.Node
+	ast.Inspect(file, func(nd ast.Node) bool {
+		if nd == nil {
+			stack = stack[:len(stack)-1]
 			return true
+		}
+		stack = append(stack, nd)
+		call, ok := nd.(*ast.CallExpr)
+		if !ok || visibleKind(info, call) != "point" {
+			return true
+		}
+		if sig, _ := info.TypeOf(call.Fun).(*types.Signature); sig == nil || sig.Results().Len() == 1 {
+			return true
+		}
+		for i := len(stack) - 2; i >= 1; i-- {
+			st, isStmt := stack[i].(ast.Stmt)
+			if !isStmt {
+				continue
+			}
+			switch stack[i-1].(type) {
+			case *ast.BlockStmt, *ast.CaseClause, *ast.CommClause:
+				needPoint[st]++
+				return true
+			}
+		}
+		return true
+	})
+	out := astutil.Apply(file, nil, func(c *astutil.Cursor) bool {
+		if st, ok := c.Node().(ast.Stmt); ok && needPoint[st] > 0 && c.Index() >= 0 {
+			for k := 0; k < needPoint[st]; k++ {
+				n++
+				c.InsertBefore(&ast.ExprStmt{X: symCall("Point")})
+			}
+			delete(needPoint, st)
 		}
 		call, ok := c.Node().(*ast.CallExpr)
 		if !ok {
